@@ -1,6 +1,6 @@
 #!/bin/bash
 # quick evaluation of seeded changes: tools/qseed.sh <seed-id> [PROP]  (scratch copy, patch, tagged check quick; no demo / suite)
-id="$1"; prop="${2:-$(python3 -c "import json;print(json.load(open('/verif/seeded/$id/meta.json'))['property'])")}"
+id="$1"; prop="${2:-$(python3 -c "import json;m=json.load(open('/verif/seeded/$id/meta.json'));print(m.get('checked_by',m['property']))")}"
 d=$(mktemp -d /tmp/qseed-XXXXXX)
 cp -r /repo/Geometry3D /repo/docs "$d/" 2>/dev/null; (cd "$d" && patch -p1 -s < /verif/seeded/$id/patch.diff) || { echo "patch failed"; rm -rf "$d"; exit 2; }
 VERIF_REPO="$d" VERIF_OUT="$d/.out" /verif/check "$prop" --tier quick > "$d/log" 2>&1; rc=$?
